@@ -131,11 +131,11 @@ var sigs = []wb.FuncType{
 
 var globalValTypes = []byte{wb.I32, wb.I64, wb.F32, wb.F64, wb.V128, wb.FuncRef, wb.ExternRef}
 
-// limits of exported objects: min in 0..2, max in {none,1,2,3}
-func exportLimits() (ls []wb.Limits) {
-	for min := uint32(0); min <= 2; min++ {
+// limits of exported objects: min in 0..2, max in {none,1,2,3} (thorough: one more of each)
+func exportLimits(x uint32) (ls []wb.Limits) {
+	for min := uint32(0); min <= 2+x; min++ {
 		ls = append(ls, wb.Limits{Min: min})
-		for max := uint32(1); max <= 3; max++ {
+		for max := uint32(1); max <= 3+x; max++ {
 			if max >= min {
 				ls = append(ls, wb.Limits{Min: min, Max: max, HasMax: true})
 			}
@@ -144,11 +144,11 @@ func exportLimits() (ls []wb.Limits) {
 	return
 }
 
-// limits declared by importers: min in 0..3, max in {none,1,2,3,4}
-func importLimits() (ls []wb.Limits) {
-	for min := uint32(0); min <= 3; min++ {
+// limits declared by importers: min in 0..3, max in {none,1,2,3,4} (thorough: one more of each)
+func importLimits(x uint32) (ls []wb.Limits) {
+	for min := uint32(0); min <= 3+x; min++ {
 		ls = append(ls, wb.Limits{Min: min})
-		for max := uint32(1); max <= 4; max++ {
+		for max := uint32(1); max <= 4+x; max++ {
 			if max >= min {
 				ls = append(ls, wb.Limits{Min: min, Max: max, HasMax: true})
 			}
@@ -180,18 +180,22 @@ type universe struct {
 	impFuncs  []extType
 }
 
-func newUniverse() *universe {
+func newUniverse(tier string) *universe {
 	u := &universe{}
-	u.expMems = withShared(exportLimits())
+	x := uint32(0)
+	if tier == "thorough" {
+		x = 1
+	}
+	u.expMems = withShared(exportLimits(x))
 	for _, e := range []byte{wb.FuncRef, wb.ExternRef} {
-		for _, l := range exportLimits() {
+		for _, l := range exportLimits(x) {
 			u.expTables = append(u.expTables, extType{Kind: wb.KindTable, Elem: e, Lim: l})
 		}
-		for _, l := range importLimits() {
+		for _, l := range importLimits(x) {
 			u.impTables = append(u.impTables, extType{Kind: wb.KindTable, Elem: e, Lim: l})
 		}
 	}
-	for _, l := range withShared(importLimits()) {
+	for _, l := range withShared(importLimits(x)) {
 		u.impMems = append(u.impMems, extType{Kind: wb.KindMemory, Lim: l})
 	}
 	for _, vt := range globalValTypes {
@@ -491,7 +495,7 @@ func (e *p1Env) runShardWith(s p1Shard, engines []string, casesFn func() []p1Cas
 			}
 			e.exp[en][s.Variant] = cm
 		}
-		E, err := rt.InstantiateModule(bg, cm, wazero.NewModuleConfig().WithName("E"))
+		E, err := rt.InstantiateModule(bg, cm, modCfg.WithName("E"))
 		if err != nil {
 			panic(fmt.Sprintf("harness: exporter variant %d not instantiable on %s: %v", s.Variant, en, err))
 		}
@@ -516,7 +520,7 @@ func runP1Case(rt wazero.Runtime, E api.Module, last api.Function, c p1Case) (r 
 		return p1Result{Err: "compile: " + err.Error()}
 	}
 	defer cm.Close(bg)
-	I, err := rt.InstantiateModule(bg, cm, wazero.NewModuleConfig().WithName(""))
+	I, err := rt.InstantiateModule(bg, cm, modCfg.WithName(""))
 	if err != nil {
 		return p1Result{Err: err.Error()}
 	}
